@@ -1,4 +1,4 @@
-\* goal-directed script generation, group "tight" (constants equal TC_tight.cfg's): misc
+\* goal-directed script generation, group "tight": the same subscription id lags twice
 CONSTANTS
   Ops <- G_tight_Ops
   Kind <- G_tight_Kind
@@ -8,25 +8,25 @@ CONSTANTS
   SubIds = {1}
   Dev = {}
   PeerMenu = {}
-  MaxPeer = 4
-  MaxPush = 1
-  Faults = {"sendErr"}
+  MaxPeer = 6
+  MaxPush = 4
+  Faults = {}
   MaxFaults = 1
   RespShapes <- RS_gen
   Abandon = FALSE
   MaxArr = 3
   ArrMenu = {}
-  ScriptLen = 7
+  ScriptLen = 10
   HoldGate = 1
   AbandonGate = 1
   FaultGate = 1
-  StartOps = {"a", "b", "c"}
-  Want = {"abandonThenAccept", "duplicateSubId"}
-  EnvAbandon = TRUE
+  StartOps = {"a", "b"}
+  Want = {"lagTwiceSameId"}
+  EnvAbandon = FALSE
   EnvHold = FALSE
 INIT DInit
 NEXT DNext
 VIEW GView
 CONSTRAINT Prune
-INVARIANTS G_ReuseThenDropEnded G_AbandonThenAccept G_SendErrOnUnsub G_CloseThenLeave G_DuplicateSubId
+INVARIANTS G_LagTwiceSameId
 CHECK_DEADLOCK FALSE
